@@ -23,6 +23,14 @@ ERRNO = {'ENOENT': 2, 'EIO': 5, 'EBADF': 9, 'ENOMEM': 12, 'EACCES': 13, 'ENOTDIR
          'ENOSPC': 28, 'EROFS': 30, 'ENAMETOOLONG': 36, 'ELOOP': 40}
 
 
+def _pdeathsig():
+    try:
+        import ctypes, signal
+        ctypes.CDLL('libc.so.6').prctl(1, signal.SIGKILL)
+    except Exception:
+        pass
+
+
 class Plan:
     """A flat, explicit description of one simulated run."""
 
@@ -150,6 +158,9 @@ class Result:
         return '?'
 
 
+EOF = object()
+
+
 class Worker:
     def __init__(self, binpath, tag='w'):
         self.bin = binpath
@@ -164,7 +175,7 @@ class Worker:
         env = dict(os.environ)
         env['TZ'] = 'UTC'
         env.pop('ASAN_OPTIONS', None)
-        self.p = subprocess.Popen([self.bin], stdin=subprocess.PIPE, stdout=subprocess.PIPE, stderr=self.errf, bufsize=0, env=env)
+        self.p = subprocess.Popen([self.bin], stdin=subprocess.PIPE, stdout=subprocess.PIPE, stderr=self.errf, bufsize=0, env=env, preexec_fn=_pdeathsig)
         self.buf = b''
         self.nplans = 0
 
@@ -208,7 +219,7 @@ class Worker:
             if r:
                 d = os.read(self.p.stdout.fileno(), 1 << 16)
                 if not d:
-                    return b''   # EOF
+                    return EOF
                 self.buf += d
 
     def run(self, plan, timeout=120):
@@ -234,8 +245,11 @@ class Worker:
                 res.fatal = res.fatal or ('SIGNAL', '14 orchestrator timeout')
                 self.stop()
                 break
-            if line == b'':
-                rc = self.p.wait()
+            if line is EOF:
+                try:
+                    rc = self.p.wait(timeout=10)
+                except Exception:
+                    self.p.kill(); rc = self.p.wait()
                 res.died = (rc, self._stderr_tail())
                 self.stop()
                 break
